@@ -58,6 +58,7 @@ Theorem sint_field : parse_numeric (plain_int n true MSB) env c = Ok (int_value 
 Proof.
   unfold parse_numeric, raw_numeric, plain_int. cbn [ne_kind ne_size ne_order ne_context ne_default].
   unfold c. rewrite read_int_spec by (assumption || lia). cbn [bind].
+  destruct (Z.ltb_spec n 1) as [?|_]; [lia|]. cbn [andb].
   rewrite twos_complement_spec; [reflexivity|lia|]. apply spec_int_range; (assumption || lia).
 Qed.
 
@@ -73,6 +74,7 @@ Theorem lsb_sint_field : n mod 8 = 0 ->
 Proof.
   intro H8. unfold parse_numeric, raw_numeric, plain_int. cbn [ne_kind ne_size ne_order ne_context ne_default].
   unfold c. rewrite read_int_spec by (assumption || lia). cbn [bind].
+  destruct (Z.ltb_spec n 1) as [?|_]; [lia|]. cbn [andb].
   rewrite twos_complement_spec; [reflexivity|lia|].
   unfold reverse_bytes. fold (spec_bytes B p n).
   assert (W : wf (rev (spec_bytes B p n))).
